@@ -311,4 +311,19 @@ fn special_layouts(o: &Opts, out: &mut Out, sampled: &mut bool) {
     announce_and_apply(out, &proj, &args, &format!("project-with-suppressions lang={lang}"), &|_rid: &str| false, sampled);
     out.count("layout:project-suppressions");
   }
+  // ---- files that begin with bytes no edit touches: a UTF-8 byte order mark, leading blank lines, a shebang
+  for (li, prefix) in ["\u{feff}", "\n\n  \n", "#!/usr/bin/env node\n", "\u{feff}\r\n"].iter().enumerate() {
+    let base = fresh_dir(&o.out, &format!("lead_{li}"));
+    let proj = base.join("t");
+    std::fs::create_dir_all(&proj).unwrap();
+    std::fs::write(proj.join("lead.js"), format!("{prefix}foo(1);\n// héllo\nlet x = foo(2, foo(3));\n")).unwrap();
+    let rp = base.join("rules.yml");
+    std::fs::write(&rp, "id: fx\nlanguage: JavaScript\nmessage: m\nrule:\n  pattern: foo($$$A)\nfix: bar($$$A)\n").unwrap();
+    let rabs = std::fs::canonicalize(&rp).unwrap();
+    let args: Vec<String> = vec!["scan".into(), "-r".into(), rabs.to_string_lossy().to_string()];
+    announce_and_apply(out, &proj, &args, &format!("leading-bytes layout {li}"), &|_rid: &str| false, sampled);
+    let args2: Vec<String> = vec!["run".into(), "-p".into(), "foo($$$A)".into(), "-r".into(), "baz($$$A)".into(), "-l".into(), "js".into()];
+    announce_and_apply(out, &proj, &args2, &format!("leading-bytes layout {li} (run)"), &|_rid: &str| false, sampled);
+    out.count("layout:leading-bytes");
+  }
 }
